@@ -50,6 +50,7 @@ pub fn registry() -> Vec<Box<dyn Check>> {
         Box::new(rw::RwCheck { id: "C03" }),
         Box::new(rw::RwCheck { id: "C14" }),
         Box::new(rw::RwCheck { id: "C08R" }),
+        Box::new(rw::RwCheck { id: "C11R" }),
         Box::new(rw::StopCheck),
         Box::new(cross::CrossCheck { id: "C11" }),
         Box::new(cross::CrossCheck { id: "C12" }),
